@@ -42,10 +42,10 @@ type c14Case struct {
 	Nonce         string `json:"server_nonce"`
 	Challenge     string `json:"cram_challenge"`
 	ScramExt      string `json:"scram_server_first_extensions,omitempty"` // optional extensions behind i= (RFC 5802 section 7)
-	TLSVersion    string `json:"tls"`                      // none | 1.2 | 1.3
-	Via           string `json:"via"`                      // client (mail.Client) | direct (smtp.Client.Auth) | retry (same Auth object twice)
-	RetryVariant  string `json:"retry_variant,omitempty"`  // what differs at the server on the second attempt: same | iter | salt | both | nonce
-	AdvertiseSeed int    `json:"advertise_seed,omitempty"` // AUTODISCOVER: selects the advertised mechanism subset
+	TLSVersion    string `json:"tls"`                                     // none | 1.2 | 1.3
+	Via           string `json:"via"`                                     // client (mail.Client) | direct (smtp.Client.Auth) | retry (same Auth object twice)
+	RetryVariant  string `json:"retry_variant,omitempty"`                 // what differs at the server on the second attempt: same | iter | salt | both | nonce
+	AdvertiseSeed int    `json:"advertise_seed,omitempty"`                // AUTODISCOVER: selects the advertised mechanism subset
 }
 
 type credClass struct {
